@@ -174,6 +174,8 @@ def check(facts, rep, tier, cfg):
     rep.rule("C11.R5", "datagrams reach the application in queue order: they are taken off the bounded datagram queue one at a time, or through "
                        "an intermediate store that is strictly first-in first-out (no store at all on the pinned tree)")
     check_datagram_fifo(facts, rep, crate)
+    rep.rule("C11.R6", "get_datagram is cancel safe: no suspension point after a datagram has been taken off the queue (it is polled inside select! by the client and the server)")
+    check_receive_cancel_safe(facts, rep, crate)
     check_option_setters(facts, rep, crate, "C11.R4", ['datagram_buffer_size'])
     rep.rule("C11.S7", "who-may: the functions that touch the critical resources behind this property are those of the reference tree (flow table, closed flag, per-stream / datagram / outbound queues, last-pong timestamp, client id maps, shared TLS identity)")
     import whomay
@@ -251,3 +253,51 @@ def check_datagram_fifo(facts, rep, crate):
                     "delivered out of order" % (fname, bad[2]))
         else:
             rep.ok("C11.R5", key, dp, "%d uses, only order-preserving operations (push_back / pop_front / remove(0) / extend / drain)" % uses)
+
+
+def check_receive_cancel_safe(facts, rep, crate):
+    """get_datagram is documented (and used, inside select!) as cancel safe: once a datagram has been taken off the queue the future completes
+    without suspending again; an await after the dequeue loses the datagram whenever the select! takes another branch meanwhile."""
+    from an import Tracer, callee, walk, strip, guard_at
+    import whomay
+    k = 0
+    for b in crate.bodies:
+        if not b.j.get("coroutine") and "{closure" not in b.path.split("::")[-1]:
+            continue
+        if not b.path.split("::{")[0].endswith("get_datagram"):
+            continue
+        # closures of this logical function that take a datagram off the queue
+        takers = set()
+        for kb in crate.bodies:
+            if kb.path.startswith(b.path.split("::{")[0]) and "datagram-receive" in whomay.effects_of_body(facts, kb):
+                takers.add(kb.dp)
+        tr = Tracer(facts, b)
+        for bi, t in b.calls():
+            c = callee(t)
+            if not c or c["name"] != "poll" or not t["args"]:
+                continue
+            src = tr.operand(t["args"][0])
+            hit = any((x.kind == "agg" and x[1] == "closure" and x[2] in takers) or (x.kind == "closureconst" and x[1] in takers) or
+                      (x.kind == "call" and x[6] in ("recv", "recv_many") and "Datagram" in x[2]) for x in walk(src))
+            if not hit:
+                continue
+            k += 1
+            where = "%s (%s)" % (loc_str(t["loc"]), b.path)
+            ready = []
+            for gb in range(len(b.blocks)):
+                if b.term(gb)["k"] != "SwitchInt":
+                    continue
+                g = guard_at(facts, b, tr, gb)
+                if g is None or g.kind != "discr" or not (g.adt or "").endswith("poll::Poll"):
+                    continue
+                r = strip(g.pred)
+                if r.kind == "call" and r[4] == bi:
+                    ready += [sb for sb, v in g.edges if v == "Ready"]
+            later = [x for rb in ready for x in b.reachable_from(rb, cut={bi}) if b.term(x)["k"] == "Yield"]
+            if later:
+                rep.bad("C11.R6", "receive-cancel-safe", "%s (%s)" % (loc_str(b.term(later[0])["loc"]), b.path),
+                        "get_datagram suspends again (await at %s) after it has taken a datagram off the queue: when the caller's select! completes on "
+                        "another branch during that suspension the datagram is dropped although the buffer was not full" % loc_str(b.term(later[0])["loc"]))
+            else:
+                rep.ok("C11.R6", "receive-cancel-safe", where, "no suspension point between the dequeue and the return")
+    rep.floor("C11.R6", "datagram receive awaits", k, 1)
